@@ -16,5 +16,6 @@ EXTENDS Naturals, Sequences, FiniteSets, TLC
 RouteKinds == {"static", "param", "opt", "regex", "all", "hdr", "render", "panic"}
 HasVal(k) == k \in {"param", "opt", "regex", "all", "render", "panic"}
 Serial(rq) == [h |-> rq.route, val |-> IF HasVal(rq.route) THEN rq.val ELSE "", tag |-> rq.id,
-               url |-> "/p/" \o rq.val, wid |-> rq.id]
+               url |-> "/p/" \o rq.val, wid |-> rq.id,
+               scr |-> rq.id]     \* the scratch value its own middleware left in the Params map of the request
 ====
